@@ -47,6 +47,10 @@ def calls():
     return _CALLS.value
 
 
+_SEEN = None        # when a set: the (arity, categories) keys the rule functions were asked for during the current in-process call
+_DUP = []
+
+
 class Rule:
     def __init__(self, name, arity):
         self.name, self.arity = name, arity
@@ -54,6 +58,11 @@ class Rule:
     def __call__(self, *a):
         with _CALLS.get_lock():
             _CALLS.value += 1
+        if _SEEN is not None:
+            k_ = (self.arity,) + tuple(a)
+            if k_ in _SEEN:
+                _DUP.append(k_)
+            _SEEN.add(k_)
         slow = _SLOW.get(self.name)
         if slow and a[0] in slow[0]:
             time.sleep(slow[1])
@@ -422,13 +431,21 @@ def big_cache(ctx, P, n_sent):
         sents.append(s_)
     base = {'scenario': 'big_cache', 'sentences': n_sent, 'kw': {k: repr(v) for k, v in kw.items()}, 'lengths': [len(s_.tokens) for s_ in sents]}
     calls_reset()
+    global _SEEN
+    _SEEN = set()
+    del _DUP[:]
     try:
         whole, _ = call_run(P, sents, cats, roots, binary, unary, kw)
     except Exception as e:      # noqa
+        _SEEN = None
         ctx.fail('exception', f'big-cache batch: depccg.parsing.run raised {type(e).__name__}: {str(e)[:200]} on a well-formed batch of {n_sent} sentences '
                  f'after {calls()} rule-function calls (= cache entries) in this call', dict(base, error=repr(e)[:300]))
         return
-    ctx.stats['big_cache:rule_cache_entries'] = calls()
+    _SEEN = None
+    # the memo contract of GlueMemo.v (a cached key is never recomputed within one call): the rule functions are asked at most once per key
+    ctx.obligation(f'big-cache batch of {n_sent}: no rule-function key is requested twice within one call (the rule cache only grows)', not _DUP,
+                   f'{len(_DUP)} repeated requests, first: {[str(x) for x in _DUP[0]] if _DUP else None}')
+    ctx.stats['big_cache:rule_cache_entries'] = max(ctx.stats.get('big_cache:rule_cache_entries', 0), calls())
     if len(whole) != n_sent:
         ctx.fail('result_count', f'big-cache batch: {n_sent} sentences in, {len(whole)} result lists out', base)
         return
@@ -681,7 +698,12 @@ def run(ctx):
         wrapper_checks(ctx, P, 240 if ctx.quick else 2400)
         malformed(ctx, P, 40 if ctx.quick else 400)
         t0 = time.time()
-        big_cache(ctx, P, 7 if ctx.quick else 40)
+        for n_big in ((7, 12) if ctx.quick else (7, 10, 13, 18, 25, 40)):      # several batches: the cache passes any given size at different moments of a search
+            big_cache(ctx, P, n_big)
+        n_big = 16
+        while ctx.stats.get('big_cache:rule_cache_entries', 0) < 26000 and n_big <= 64:      # ... and at least one of them is really big
+            big_cache(ctx, P, n_big)
+            n_big *= 2
         ctx.stats['big_cache_s'] = round(time.time() - t0, 1)
         rng = ctx.rng
         if ctx.quick:
